@@ -268,11 +268,52 @@ fn promote(a: &str, b: &str) -> String {
     )
 }
 
+fn symhist(ops: &str) -> String {
+    use oq3_semantics::symbols::{ScopeType, SymbolTable, SymbolType};
+    use oq3_semantics::types::{IsConst, Type};
+    let mut t = SymbolTable::new();
+    let mut out = String::from("{\"results\":[");
+    for (i, op) in ops.split(',').enumerate() {
+        if i > 0 {
+            out.push(',');
+        }
+        let (code, name) = match op.split_once(':') {
+            Some((c, n)) => (c, n),
+            None => (op, ""),
+        };
+        let r = match code {
+            "el" | "es" | "eg" | "x" => {
+                let res = panic::catch_unwind(panic::AssertUnwindSafe(|| match code {
+                    "el" => t.verif_enter_scope(ScopeType::Local),
+                    "es" => t.verif_enter_scope(ScopeType::Subroutine),
+                    "eg" => t.verif_enter_scope(ScopeType::Global),
+                    _ => t.exit_scope(),
+                }));
+                if res.is_ok() { String::from("ok") } else { String::from("panic") }
+            }
+            "bi" => format!("{:?}", t.new_binding(name, &Type::Int(Some(32), IsConst::False))),
+            "bq" => format!("{:?}", t.new_binding(name, &Type::Qubit)),
+            "l" => match t.lookup(name) {
+                Ok(rec) => format!("Ok({:?},{},{:?})", rec.symbol_id(), t[&rec.symbol_id()].name(), rec.symbol_type()),
+                Err(e) => format!("Err({:?})", e),
+            },
+            _ => String::from("bad"),
+        };
+        out.push_str(&js(&r));
+        if r == "panic" {
+            break;
+        }
+    }
+    let _ = write!(out, "],\"len_current_scope\":{}}}", t.len_current_scope());
+    out
+}
+
 fn run(line: &str) -> String {
     let parts: Vec<&str> = line.split_whitespace().collect();
     match parts.as_slice() {
         ["parse_kinds", k, j] => parse_kinds(k, j),
         ["promote", a, b] => promote(a, b),
+        ["symhist", ops] => symhist(ops),
         ["lex", t] => lex(&hex(t)),
         ["lex"] => lex(""),
         ["lexed", t] => lexed(&hex(t)),
